@@ -378,16 +378,20 @@ def decide(u, q, defs, log_prefix, hints, note):
         # the solver's own counterexamples tell what the path needs: re-profile them concretely (cheap) so that one round
         # learns every loop along that path, not just the first one that was too small
         cex = [r['traces'].get(k) for k in unw if r['traces'].get(k)]
+        raised = set()
         if cex and q.profile is not None:
             try:
                 tot = profile_unit(u, q, [d_ for d_ in defs if d_ != '-DWITNESS'], cex[:3], u.dir, unwind=q.hardcap + 2, workers=3)
                 for lid, v in tot.items():
                     if v + 1 > unwindset.get(lid, q.unwind):
                         unwindset[lid] = min(v + 1, q.hardcap + 1)
+                        raised.add(lid)
             except Exception:
                 pass
         for k in unw:
             lid = k.replace('.unwind.', '.')
+            if lid in raised:
+                continue        # the concrete re-run of the counterexample told exactly what this loop needs
             cur = unwindset.get(lid, q.unwind)
             if re.match(r'(spec_|sp_|str_eq|res_same|main|inst|in_fill|ref_|oracle_)', lid):
                 nxt = max(cur + 4, 12)     # harness-side reference code: cheap, be generous at once
